@@ -1,3 +1,4 @@
+import re
 """CODEC rules (DESIGN 5/C14): writer/reader agreement by structural induction."""
 import sys
 sys.setrecursionlimit(20000)
@@ -16,15 +17,36 @@ def rpo_calls(fn):
     return sorted(cs, key=lambda c: pos[c.bb])
 
 
+def cursor_types(F):
+    """record types that walk a byte slice: a `&[u8]` field and a `usize` field, with a method that decodes a component at
+    that position (`DecodeCursor { bytes, offset }`).  Their methods are read in place and their in-place offset updates are
+    versioned (rules/sroa.py), so a decoder written with a cursor shows the same offset chain as one that threads the offset"""
+    out = set()
+    for a in F.adts.values():
+        if not a.get("variants") or len(a["variants"]) != 1:
+            continue
+        tys = [re.sub(r"'[a-z_]+ ", "", fd["ty"]).replace(" ", "") for fd in a["variants"][0]["fields"]]
+        if "usize" in tys and any(t in ("&[u8]", "&mut[u8]") for t in tys) and len(tys) <= 4:
+            nm = a["name"].split("<")[0]
+            if any((g.j.get("self_ty") or "").split("<")[0] == nm and any(c.trait == DEC_TRAIT for c in g.calls()) for g in F.fns.values() if g.blocks):
+                out.add(nm)
+    return out
+
+
 def codec_impls(F):
     """self type -> {"enc": fn, "dec": fn}"""
     out = {}
+    cur = cursor_types(F)
     for f in F.fns.values():
         tr = f.j.get("trait")
         if tr == ENC_TRAIT and f.j.get("method") == "encode":
             out.setdefault(f.j["self_ty"], {})["enc"] = F.inlined(f, light=False)
         if tr == DEC_TRAIT and f.j.get("method") == "decode":
-            out.setdefault(f.j["self_ty"], {})["dec"] = F.inlined(f, light=False)
+            v = F.inlined(f, light=False, also_types=cur)
+            if cur:
+                import sroa
+                v = sroa.promote_fields(F, v, cur)
+            out.setdefault(f.j["self_ty"], {})["dec"] = v
     return out
 
 
@@ -227,6 +249,39 @@ def decode_field_map(F, fn, self_ty):
                         m.setdefault(fld, 0)
         return m, "ctor:" + g.name
     return None, None
+
+
+def returned_offset_is_computed(fn):
+    """does the returned offset (second component of Ok((v, off))) pass through arithmetic after the last decode handed it
+    back?  For a composite whose decodes are all component decodes the returned offset must be *the* offset the last component
+    returned - `offset + 1`, `offset - k`, ... desynchronise the next value in the row"""
+    from terms import subterms
+    for b in fn.blocks:
+        if b.get("cleanup"):
+            continue
+        for s_ in b["stmts"]:
+            if s_["k"] == "assign" and s_["rv"]["k"] == "agg" and s_["rv"].get("agg") == "tuple" and len(s_["rv"]["ops"]) == 2:
+                t = rvalue_origin(fn, s_["rv"], 0, frozenset(), DEEP)
+                off = t[2][1]
+                if count_decodes(off) == 0:
+                    continue
+                # arithmetic above (outside) every decode call of the term
+                def has_outer_bin(x):
+                    if x[0] == "bin":
+                        return True
+                    if x[0] == "call" and (x[1].endswith("Decode::decode") or x[1].endswith("Decode>::decode")):
+                        return False
+                    kids = ()
+                    if x[0] in ("cast", "ref", "deref", "field"):
+                        kids = (x[1],)
+                    elif x[0] == "call":
+                        kids = x[2]
+                    elif x[0] == "phi":
+                        kids = x[1]
+                    return any(has_outer_bin(k_) for k_ in kids if isinstance(k_, tuple))
+                if has_outer_bin(off):
+                    return True
+    return False
 
 
 def returned_offset_count(fn):
